@@ -30,6 +30,9 @@ type wireNode struct {
 	nid  [20]byte
 	// goroutine of this server's read loop (inbound handlers run in it)
 	serveGid int64
+	// a wait for a datagram gave up although the server was still working on it: nothing observed after
+	// this point may be judged
+	stalled bool
 }
 
 func quietLogger() log.Logger { return log.Default.FilterLevel(log.Critical) }
@@ -88,7 +91,8 @@ func (n *wireNode) nextTid() []byte {
 // exchange injects one query datagram and returns the reply addressed to the source with that
 // transaction id (nil if none arrived).
 func (n *wireNode) exchange(d *sim.Dict, tid []byte) *sim.Dict {
-	if !n.conn.Inject(sim.Encode(d), n.from, 30*time.Second) {
+	if !n.conn.Inject(sim.Encode(d), n.from, 120*time.Second) {
+		n.stalled = true // the read loop did not come back in time: nothing to judge (C01 looks at wedged loops)
 		return nil
 	}
 	return n.awaitReply(tid)
@@ -111,8 +115,13 @@ func (n *wireNode) awaitReply(tid []byte) *sim.Dict {
 			}
 		}
 		el := time.Since(start)
-		if (!busy && el > 20*time.Millisecond) || el > 5*time.Second {
+		if !busy && el > 20*time.Millisecond {
 			return nil // silence: the handler is done and no goroutine is left that could still answer
+		}
+		if el > 120*time.Second {
+			// a reply goroutine exists but has not written yet: an overloaded machine, not an observation
+			n.stalled = true
+			return nil
 		}
 		time.Sleep(50 * time.Microsecond)
 	}
@@ -172,6 +181,9 @@ func (n *wireNode) wirePut(b built, class string) int {
 	tid := n.nextTid()
 	n.tr.Emit(sim.M{"seg": n.seg, "e": "WirePut", "p": "w", "item": n.w.absBuilt(b), "class": class})
 	code := replyCode(n.exchange(n.putDatagram(b, tid), tid))
+	if n.stalled {
+		return -1
+	}
 	n.tr.Emit(sim.M{"seg": n.seg, "e": "WirePutReply", "p": "w", "code": code})
 	return code
 }
@@ -231,6 +243,9 @@ func (n *wireNode) wireGet(t [20]byte, hasSeq bool, seqArg int64, decoy sim.Valu
 	}
 	n.tr.Emit(sim.M{"seg": n.seg, "e": "WireGet", "p": "w", "t": n.w.tgtName(t), "hasseq": hasSeq, "seqarg": absSeq(seqArg)})
 	r := n.exchange(sim.D("t", tid, "y", "q", "q", "get", "a", a), tid)
+	if n.stalled {
+		return
+	}
 	n.tr.Emit(sim.M{"seg": n.seg, "e": "WireGetReply", "p": "w", "rep": n.absReply(r, t), "answered": r != nil})
 }
 
@@ -251,6 +266,9 @@ func wireSequential(w *world, tr *sim.Trace, seed int64, seg int, nops int) erro
 	var lastSeq, lastCas int64
 	var targets [][20]byte
 	for op := 0; op < nops; op++ {
+		if n.stalled {
+			return fmt.Errorf("gave up waiting for a reply the server was still producing (overloaded machine)")
+		}
 		switch r := rng.Intn(10); {
 		case r < 6:
 			ps := genPut(rng, small, sized, lastSeq, lastCas, focus)
@@ -401,6 +419,9 @@ func wireConcurrent(w *world, tr *sim.Trace, seed int64, seg int, idx int, s sch
 		gidFn: func() int64 { return serveGid },
 		run: func() sim.M {
 			code := replyCode(n.exchangeKeep(n.putDatagram(b1, tid), tid))
+			if n.stalled {
+				return sim.M{"e": "Note", "kind": "stalled"}
+			}
 			return sim.M{"e": "WirePutReply", "p": "w", "code": code}
 		}})
 	var cancel context.CancelFunc
@@ -414,12 +435,17 @@ func wireConcurrent(w *world, tr *sim.Trace, seed int64, seg int, idx int, s sch
 				cancel()
 			}
 		}})
-	return e.attempt(order)
+	ok, err := e.attempt(order)
+	if err == nil && n.stalled {
+		err = fmt.Errorf("gave up waiting for a reply the server was still producing (overloaded machine)")
+	}
+	return ok, err
 }
 
 // exchangeKeep is exchange for the concurrent case: other datagrams (the local put's query) stay captured.
 func (n *wireNode) exchangeKeep(d *sim.Dict, tid []byte) *sim.Dict {
-	if !n.conn.Inject(sim.Encode(d), n.from, 60*time.Second) {
+	if !n.conn.Inject(sim.Encode(d), n.from, 120*time.Second) {
+		n.stalled = true
 		return nil
 	}
 	return n.awaitReply(tid)
